@@ -1116,6 +1116,107 @@ theorem deserValueByName_iff (d : Desc) (db : List Col) (cells : List Cell) (vs 
   · rintro ⟨htc, hall, rfl⟩
     exact deserValueByName_spec d db cells hfl hv htc hall
 
+/-- the by-name UDT deserializer never reaches a generated `panic!` / `assert!` ("duplicated field", "field
+missing in UDT — type check should have prevented this") — on the ERROR side too: after a successful type
+check the only possible failure is `FieldDeserializationFailed`, and the type check itself fails with one of
+its own kinds. -/
+theorem deserValueByName_no_panic (d : Desc) (db : List Col) (cells : List Cell)
+    (hfl : d.flavor = .byName) (hv : ValidNames (slots d.fields)) :
+    ∀ x, deserValue d db cells = .error x →
+      x ≠ .panic ∧ (tcValueByName d db = .ok () → x = .dvFieldDeserFailed) := by
+  intro x h
+  unfold deserValue at h
+  rw [hfl] at h
+  simp only [] at h
+  cases htc : tcValueByName d db with
+  | error y =>
+    rw [htc] at h
+    cases h
+    refine ⟨?_, fun h' => by cases h'⟩
+    unfold tcValueByName at htc
+    cases hl : dvTcLoop d.forbidExcess db (tcEntries d.fields) (requiredCount d.fields) with
+    | error y' => rw [hl] at htc; cases htc; exact dvTcLoop_err _ _ _ _ _ hl
+    | ok r =>
+      obtain ⟨es', rem⟩ := r
+      rw [hl] at htc
+      simp only [] at htc
+      split at htc
+      · cases htc; simp
+      · cases htc
+  | ok u =>
+    cases u
+    rw [htc] at h
+    simp only [] at h
+    obtain ⟨_, hnd, hreq⟩ := (tcValueByName_accepts_iff d db hv).mp htc
+    have hlook : ∀ n, (lookupE n (tcEntries d.fields)).isSome = (fieldFor (slots d.fields) n).isSome := by
+      intro n
+      have := congrFun (show fv (tcEntries d.fields) = fieldFor (slots d.fields) from by
+        funext n; rw [tcEntries_eq, fv_entries]) n
+      rw [← this]; unfold fv; cases lookupE n (tcEntries d.fields) <;> rfl
+    have hitems_nd : (((udtItems db cells).filter (fun it => (lookupE it.1.name (tcEntries d.fields)).isSome)).map
+        (fun it => it.1.name)).Nodup := by
+      have h1 : ((udtItems db cells).filter (fun it => (lookupE it.1.name (tcEntries d.fields)).isSome)).map
+          (fun it => it.1.name) = matchedNames (fieldFor (slots d.fields)) db := by
+        unfold matchedNames
+        conv => rhs; rw [← udtItems_fst db cells, List.filter_map, List.map_map]
+        congr 1
+        apply List.filter_congr
+        intro it _
+        simp [Function.comp, hlook]
+      rw [h1]; exact hnd
+    have hunv : ∀ it ∈ udtItems db cells, ∀ e, lookupE it.1.name (tcEntries d.fields) = some e → e.visited = false := by
+      intro it _ e he
+      have hmem := (lookupE_some he).2
+      rw [tcEntries_eq] at hmem
+      exact entries_unvisited _ e hmem
+    unfold deValueByName at h
+    cases hloop : dvDeLoop (udtItems db cells) (tcEntries d.fields) with
+    | error y =>
+      rw [hloop] at h
+      cases h
+      have := dvDeLoop_err _ _ _ hitems_nd hunv hloop
+      exact ⟨by rw [this]; simp, fun _ => this⟩
+    | ok es' =>
+      rw [hloop] at h
+      simp only [] at h
+      exfalso
+      have hlk := dvDeLoop_lookup _ _ es' hloop
+      have hcols := dvDeLoop_cols _ _ es' hloop
+      rw [dvFinalize_spec es' d.fields] at h
+      · cases h
+      · intro f hf hs
+        have h1 := hlk f.col
+        rw [tcEntry_lookup d.fields hv f hf hs] at h1
+        have hsome : (lookupE f.col es').isSome = true := by
+          rw [lookupE_isSome_iff]
+          have : f.col ∈ (tcEntries d.fields).map (fun e => e.f.col) := by
+            rw [← lookupE_isSome_iff, tcEntry_lookup d.fields hv f hf hs]; rfl
+          have hc : es'.map (fun e => e.f.col) = (tcEntries d.fields).map (fun e => e.f.col) := by
+            have := congrArg (List.map Field.col) hcols
+            simpa [List.map_map, Function.comp_def] using this
+          rw [hc]; exact this
+        cases hfd : (udtItems db cells).find? (fun it => it.1.name == f.col) with
+        | some it =>
+          rw [hfd] at h1
+          simp only [Option.bind_some] at h1
+          cases hdv : deValD f it.2 with
+          | none => rw [hdv] at h1; rw [h1] at hsome; cases hsome
+          | some v => exact ⟨setV v ⟨f, none, false⟩, by rw [h1, hdv]; rfl, Or.inl rfl⟩
+        | none =>
+          rw [hfd] at h1
+          refine ⟨_, h1, Or.inr ?_⟩
+          by_cases ha : f.allowMissing = true
+          · exact ha
+          · exfalso
+            have hr : f.required = true := by simp [Field.required, hs, ha]
+            have hin := hreq f hf hr
+            simp only [names, List.mem_map] at hin
+            obtain ⟨c, hc, hcn⟩ := hin
+            have : c ∈ (udtItems db cells).map (·.1) := by rw [udtItems_fst]; exact hc
+            obtain ⟨it, hit, rfl⟩ := List.mem_map.mp this
+            have := List.find?_eq_none.mp hfd it hit
+            simp [hcn] at this
+
 private theorem udtItems_zip (items : List (Col × Cell)) :
     udtItems (items.map (·.1)) (items.map (·.2)) = items := by
   induction items with
@@ -1403,6 +1504,107 @@ theorem deserRowByName_perm (d : Desc) (items items' : List (Col × Cell)) (vs :
   rw [deserRow_eq_value d _ _ hfl hr hv (by simp), deserRow_eq_value d _ _ hfl hr hv (by simp),
     mapErr_ok_iff, mapErr_ok_iff]
   exact deserValueByName_perm (asUdt d) items items' vs hfl hv hp
+
+/-- the by-name row deserializer never reaches a generated `panic!` / `unreachable!` either, whatever the
+number of cells -/
+theorem deserRowByName_no_panic (d : Desc) (db : List Col) (cells : List Cell) (hfl : d.flavor = .byName)
+    (hr : RowFields d.fields) (hv : ValidNames (slots d.fields)) :
+    deserRow d db cells ≠ .error .panic := by
+  by_cases hlen : db.length ≤ cells.length
+  · rw [deserRow_eq_value d db cells hfl hr hv hlen]
+    cases h : deserValue (asUdt d) db cells with
+    | ok vs => simp [mapErr]
+    | error x =>
+      have := (deserValueByName_no_panic (asUdt d) db cells hfl hv x h).1
+      simp only [mapErr]
+      intro hx
+      cases x <;> simp [rowErrOf] at hx this
+  · intro h
+    unfold deserRow at h
+    rw [hfl] at h
+    simp only [] at h
+    cases htc : tcRowByName d db with
+    | error x =>
+      rw [htc] at h
+      simp only [] at h
+      cases h
+      rw [tcRowByName_eq d db hr] at htc
+      cases hv' : tcValueByName (asUdt d) db with
+      | ok u => rw [hv'] at htc; cases htc
+      | error y =>
+        rw [hv'] at htc
+        simp only [mapErr] at htc
+        have hy : y ≠ .panic := by
+          unfold tcValueByName at hv'
+          cases hl : dvTcLoop (asUdt d).forbidExcess db (tcEntries (asUdt d).fields) (requiredCount (asUdt d).fields) with
+          | error y' => rw [hl] at hv'; cases hv'; exact dvTcLoop_err _ _ _ _ _ hl
+          | ok r =>
+            obtain ⟨es', rem⟩ := r
+            rw [hl] at hv'
+            simp only [] at hv'
+            split at hv'
+            · cases hv'; simp
+            · cases hv'
+        cases y <;> simp [rowErrOf] at htc hy
+    | ok u =>
+      cases u
+      rw [htc] at h
+      simp only [] at h
+      obtain ⟨hcols, hnd, _⟩ := (tcRowByName_accepts_iff d db hr hv).mp htc
+      unfold deRowByName at h
+      cases hloop : drDeLoop (rowItems db cells) (tcEntries d.fields) with
+      | error x =>
+        rw [hloop] at h
+        cases h
+        have hfst : ∀ (db : List Col) (cells : List Cell), (rowItems db cells).map (·.1) = db := by
+          intro db
+          induction db with
+          | nil => intro cells; rfl
+          | cons c cs ih => intro cells; cases cells <;> simp [rowItems, ih]
+        refine drDeLoop_err _ _ _ ?_ ?_ hloop rfl
+        · have := congrArg (List.map Col.name) (hfst db cells)
+          rw [List.map_map] at this
+          rw [show (fun it : Col × Option Cell => it.1.name) = Col.name ∘ (·.1) from rfl, this]
+          exact hnd
+        · intro it hit
+          have hc : it.1 ∈ db := by
+            have : it.1 ∈ (rowItems db cells).map (·.1) := List.mem_map_of_mem hit
+            rwa [hfst] at this
+          obtain ⟨f, v, hf, _⟩ := hcols it.1 hc
+          have hlook := congrFun (show fv (tcEntries d.fields) = fieldFor (slots d.fields) from by
+            funext n; rw [tcEntries_eq, fv_entries]) it.1.name
+          rw [hf] at hlook
+          unfold fv at hlook
+          cases hl : lookupE it.1.name (tcEntries d.fields) with
+          | none => rw [hl] at hlook; cases hlook
+          | some e =>
+            refine ⟨e, rfl, ?_⟩
+            have hmem := (lookupE_some hl).2
+            rw [tcEntries_eq] at hmem
+            exact entries_unvisited _ e hmem
+      | ok es' =>
+        -- a successful loop consumed a cell for every column: impossible with too few cells
+        exfalso
+        have key : ∀ (db : List Col) (cells : List Cell) (es : List Entry), cells.length < db.length →
+            ∀ es', drDeLoop (rowItems db cells) es ≠ .ok es' := by
+          intro db
+          induction db with
+          | nil => intro cells es hl; simp at hl
+          | cons c cs ih =>
+            intro cells es hl es' hok
+            cases cells with
+            | nil => simp [rowItems, drDeLoop] at hok
+            | cons v vs' =>
+              simp only [rowItems] at hok
+              unfold drDeLoop at hok
+              split at hok
+              · split at hok
+                · cases hok
+                · split at hok
+                  · cases hok
+                  · exact ih vs' _ (by simpa using hl) es' hok
+              · cases hok
+        exact key db cells _ (by omega) es' hloop
 
 /-- `row_byname_roundtrip`: for a by-name struct deriving SerializeRow + DeserializeRow, whatever the order of
 the columns (distinct names, column types those of the like-named fields): if serialization succeeds,
@@ -1933,6 +2135,85 @@ theorem dvTcOrd_accepts_iff (forbid : Bool) (fs : List Field) (db : List Col)
             exact ih fs' (col :: cols) hfs.2 hdb
               (fun c' hc' f' hf' => hfit c' hc' f' (List.mem_cons_of_mem _ hf')))
     exact this fs db rfl rfl hfit
+
+/-- typed soundness of the ordered UDT type check, WITHOUT the side condition: whenever it succeeds there is a
+cut `k` such that every one of the first `k` columns carries the name AND the type of a declared field (so a
+retyped column inside the bound prefix is always rejected), every field without `allow_missing` is among
+them, and under `forbid_excess_udt_fields` nothing follows -/
+theorem dvTcOrd_types (forbid : Bool) (fs : List Field) : ∀ (db : List Col),
+    dvTcOrd false forbid fs db = .ok () →
+    ∃ k, k ≤ db.length ∧
+      (∀ (i : Nat) (c : Col), i < k → db[i]? = some c → ∃ f ∈ fs, c.name = f.col ∧ f.ty = c.ty) ∧
+      (∀ f ∈ fs, f.allowMissing = false → f.col ∈ names (db.take k)) ∧
+      (forbid = true → k = db.length) := by
+  induction fs with
+  | nil =>
+    intro db h
+    unfold dvTcOrd at h
+    refine ⟨0, Nat.zero_le _, by intro i c hi; omega, by simp, ?_⟩
+    intro hf
+    rw [hf] at h
+    cases db with
+    | nil => rfl
+    | cons c cs => simp at h
+  | cons f fs ih =>
+    intro db h
+    cases db with
+    | nil =>
+      unfold dvTcOrd at h
+      by_cases ha : f.allowMissing = true
+      · simp only [ha, if_true] at h
+        obtain ⟨k, hk, h1, h2, h3⟩ := ih [] h
+        refine ⟨k, hk, ?_, ?_, h3⟩
+        · intro i c hi hc; simp at hc
+        · intro g hg hga
+          rcases List.mem_cons.mp hg with rfl | hin
+          · rw [ha] at hga; cases hga
+          · exact h2 g hin hga
+      · simp [ha] at h
+    | cons c cs =>
+      unfold dvTcOrd at h
+      simp only [Bool.not_false, Bool.true_and] at h
+      by_cases hn : f.col = c.name
+      · have hb : (f.col != c.name) = false := by simp [hn]
+        simp only [hb, Bool.false_eq_true, if_false] at h
+        by_cases ht : f.ty = c.ty
+        · have hb2 : (f.ty != c.ty) = false := by simp [ht]
+          simp only [hb2, Bool.false_eq_true, if_false] at h
+          obtain ⟨k, hk, h1, h2, h3⟩ := ih cs h
+          refine ⟨k + 1, by simp; omega, ?_, ?_, ?_⟩
+          · intro i c' hi hc
+            cases i with
+            | zero =>
+              simp only [List.getElem?_cons_zero, Option.some.injEq] at hc
+              subst hc
+              exact ⟨f, List.mem_cons_self .., hn.symm, ht⟩
+            | succ i =>
+              simp only [List.getElem?_cons_succ] at hc
+              obtain ⟨g, hg, h4, h5⟩ := h1 i c' (by omega) hc
+              exact ⟨g, List.mem_cons_of_mem _ hg, h4, h5⟩
+          · intro g hg hga
+            simp only [List.take_succ_cons, names, List.map_cons, List.mem_cons]
+            rcases List.mem_cons.mp hg with rfl | hin
+            · exact Or.inl hn
+            · exact Or.inr (h2 g hin hga)
+          · intro hf; simp [h3 hf]
+        · have hb2 : (f.ty != c.ty) = true := by simp [ht]
+          simp [hb2] at h
+      · have hb : (f.col != c.name) = true := by simp [hn]
+        simp only [hb, if_true] at h
+        by_cases ha : f.allowMissing = true
+        · simp only [ha, if_true] at h
+          obtain ⟨k, hk, h1, h2, h3⟩ := ih (c :: cs) h
+          refine ⟨k, hk, ?_, ?_, h3⟩
+          · intro i c' hi hc
+            obtain ⟨g, hg, h4, h5⟩ := h1 i c' hi hc
+            exact ⟨g, List.mem_cons_of_mem _ hg, h4, h5⟩
+          · intro g hg hga
+            rcases List.mem_cons.mp hg with rfl | hin
+            · rw [ha] at hga; cases hga
+            · exact h2 g hin hga
+        · simp [ha] at h
 
 /-- the `fields.len() < required_fields` pre-check of the ordered UDT type check never decides: the walk
 itself rejects (with the same `TooFewFields`) whenever there are fewer columns than required fields -/
